@@ -164,8 +164,9 @@ AREA_CLAUSES = ('overlap', 'probe_get_area', 'get_area_vs_model', 'probe_query_c
 def mechanism(clause, w):
     """Predicate over the witness -> mechanism key (or None).  Keys:
     finer-union-fractional-id        a non-integer id is stored and the history has a union of that region with a finer one
-    stale-cache-after-bare-add_pixels wrong membership/deepest set while the region's non-empty `demoted` cache differs
-                                      from the expansion of its `pixeldict`, the cache having gone stale at a bare add_pixels
+    stale-cache-after-bare-add_pixels wrong membership/deepest set while (or right after) the region's non-empty `demoted`
+                                      cache is incoherent with its `pixeldict` (different set, or coarse pixels left
+                                      un-demoted beside it), the incoherence having started at a bare add_pixels
     bare-add_pixels-overlap          ancestor+descendant stored (area counted twice) since a bare add_pixels, not renormalised since
     maxdepth-1-demote                UnboundLocalError out of _demote_all on a region with maxdepth 1
     add_pixels-scalar-int            TypeError from add_pixels(pix=<int>) although the docstring allows an int
@@ -229,6 +230,8 @@ class History:
         self.prng = probe_rng
         self.probe_clone = probe_clone
         self.nfile = 0
+        self.old_ids = {}       # id of an object replaced by its reloaded copy during this step -> slot
+        self.keep = []          # ... kept alive so that the id cannot be reused
 
     # ------------------------------------------------------------------ helpers
     def new_slot(self, depth, name, probe=True):
@@ -311,7 +314,8 @@ class History:
     # ------------------------------------------------------------------ judging
     def drain_events(self, rec, in_combine=None):
         ev, _Mon.events = _Mon.events, []
-        ids = dict((id(s.region), i) for i, s in enumerate(self.pool))
+        ids = dict(self.old_ids)
+        ids.update((id(s.region), i) for i, s in enumerate(self.pool))
         seen_frac = set()
         for e in ev:
             i = ids.get(e['obj'])
@@ -381,10 +385,17 @@ class History:
         cache = r.demoted
         if len(cache):
             cl, cf = hs.to_levels({s.depth: set(cache)})
-            stale = bool(cf) or cl[s.depth] != exp
+            # _demote_all skips its work whenever the cache is non-empty, so a coherent cache means: same set AND nothing
+            # stored above the deepest level (a coarse pixel left there is never demoted by the next without/intersect)
+            differs = bool(cf) or cl[s.depth] != exp
+            coarse_left = any(len(x) for d, x in levels.items() if d < s.depth)
+            stale = differs or coarse_left
             o.count('cache_nonempty_states')
-            if stale:
+            if differs:
                 o.count('cache_stale_states')
+            elif coarse_left:
+                o.count('cache_valid_but_coarse_pixels_undemoted_states')
+            if stale:
                 if s.stale_cause is None:
                     s.stale_cause = self.label(rec)
                     o.count('cache_went_stale_at_' + s.stale_cause)
@@ -612,6 +623,8 @@ class History:
                 if not same:
                     self.violate('reload_differs', {'maxdepth_loaded': r2.maxdepth}, rec, i)
                     self.dead = True
+                self.old_ids[id(r)] = i
+                self.keep.append(r)
                 s.region = r2
             try:
                 os.remove(path)
@@ -1119,13 +1132,14 @@ def cases(seed, tier):
             out.append({'kind': 'exhaustive', 'depth': 3, 'length': 2, 'first': first})
     else:
         for first in ALPHABET:
+            out.append({'kind': 'exhaustive', 'depth': 2, 'length': 4, 'first': first})
             out.append({'kind': 'exhaustive', 'depth': 3, 'length': 3, 'first': first})
             out.append({'kind': 'exhaustive', 'depth': 4, 'length': 2, 'first': first})
-    nrand = 640 if tier == 'quick' else 8000
+    nrand = 640 if tier == 'quick' else 12000
     for k in range(nrand):
         out.append({'kind': 'random', 'depth': 2 + k % 9, 'length': 12, 'seed': [seed, 'rand', k],
                     'whole_max': 6 if tier == 'quick' else 7})
-    ncomb = 48 if tier == 'quick' else 400
+    ncomb = 48 if tier == 'quick' else 600
     for k in range(ncomb):
         out.append({'kind': 'combine', 'depth': 2 + k % 8, 'seed': [seed, 'comb', k]})
     return out
